@@ -520,7 +520,7 @@ pub fn run(p: &Params) -> Report {
         }
         mon.case_seed = case_seed;
         let mut w = World::random(case_seed);
-        w.profile = Profile { normal: 8, newcustom: 5, faucet: 5, swap: 34, deposit: 20, withdraw: 16, stake: 1, doscmint: 1, hostile: 5, odd_spelling_permille: 200, wrong_kind_permille: 150, dependent_permille: 250, max_batch: 12, big_values_permille: 120, degenerate_permille: 40, fast_mint_permille: 0, crowd_permille: 0 };
+        w.profile = Profile { normal: 8, newcustom: 5, faucet: 5, swap: 34, deposit: 20, withdraw: 16, stake: 1, doscmint: 1, hostile: 5, odd_spelling_permille: 200, wrong_kind_permille: 150, dependent_permille: 250, max_batch: 12, big_values_permille: 120, degenerate_permille: 40, fast_mint_permille: 0, crowd_permille: 0, big_block_permille: 0 };
         w.twin_deposits = case % 3 == 0;
         let blocks = 6 + (case % 14) as usize;
         run_history(&mut w, blocks, &mut [&mut mon]);
